@@ -159,10 +159,9 @@ def _run_read(case):
             for v_ in valid:  # every value present in the data is tried as the MissingValue (exact matches only may become missing)
                 if v_ not in mvs:
                     mvs.append(v_)
+            mvs += [x for x in (2.5, -0.5) if x not in mvs]  # fractional MissingValue: never equal to a cell of an integer read
             for dtype in DTYPES:
                 for mv in mvs:
-                    if mv is not None and dtype in ("Integer", "Positive Integer") and mv != int(mv):
-                        continue
                     res = _eems_read(work, "in.nc", "v", dtype, mv)
                     evals += 1
                     judged += 1
